@@ -212,3 +212,18 @@ Definition verdict03 (c : caseE) : verdict :=
     end
   end.
 Definition check03 := verdict03.
+
+(* the hypothesis of the general theorems of C02 / C03 (Proofs/WalkMsgP.v), evaluated on the
+   generated recipes: reported in the evidence as the share of cases the theorem speaks about *)
+From LOF Require Import Proofs.WalkAllP Proofs.WalkMsgP.
+Definition thm_hyp (c : caseE) : bool :=
+  match c with
+  | Enc e _ _ _ =>
+    match e with
+    | EMsg x m => msg_ok m && (x <? 4294967296)%N
+    | EAct a => act_ok a | EMf f => mf_ok f | EInstr i => instr_ok i | EBucket b => bucket_ok b | EMatch fs => match_ok fs
+    | EPkt _ => false
+    end
+  end.
+Definition count_hyp {C} (p : C -> bool) (cs : list (int * C)) : nat * nat :=
+  (length (filter (fun x => p (snd x)) cs), length cs).
